@@ -98,6 +98,11 @@ func gen(rng *rand.Rand, fam string, i int) scenario {
 		sc.RPCs = append(sc.RPCs, sp)
 	}
 	sc.StartFirst = 1 + rng.Intn(nr)
+	// spare RPCs, started one at a time whenever no RPC is running any more (a
+	// channel without RPCs neither reconnects nor exercises the transport)
+	for k := 0; k < 8; k++ {
+		sc.RPCs = append(sc.RPCs, rpcSpec{Kind: vlib.Pick(rng, "unary", "sstream", "bidi"), Deadline: time.Duration(1+rng.Intn(8000)) * time.Millisecond, WFR: rng.Intn(3) == 0, Sends: rng.Intn(3), Size: vlib.Pick(rng, 0, 10, 1000, 70000)})
+	}
 	sc.NOps = 8 + rng.Intn(40)
 	for k := 0; k < sc.MaxConns; k++ {
 		h := "ok"
@@ -231,6 +236,18 @@ func (x *execState) startRPC(i int) {
 	}()
 }
 
+func (x *execState) running() int {
+	x.mu.Lock()
+	defer x.mu.Unlock()
+	n := 0
+	for _, r := range x.rpcs {
+		if r.started && r.finished == 0 {
+			n++
+		}
+	}
+	return n
+}
+
 func (x *execState) doRPC(ctx context.Context, sp rpcSpec) error {
 	opts := []grpc.CallOption{grpc.WaitForReady(sp.WFR)}
 	payload := make([]byte, sp.Size)
@@ -264,16 +281,20 @@ func (x *execState) doRPC(ctx context.Context, sp rpcSpec) error {
 		if err != nil {
 			return err
 		}
-		x.wg.Add(1)
-		go func() {
-			defer x.wg.Done()
-			for k := 0; k < sp.Sends; k++ {
-				if st.SendMsg(payload) != nil {
-					return
+		// Sends and receives stay on ONE goroutine: clientStream.withRetry holds
+		// cs.mu while a transparent retry waits for a new transport, and a second
+		// goroutine blocked on that sync.Mutex is not "durably blocked" for
+		// synctest - the bubble's clock would stop for good (harness artefact,
+		// not a grpc defect).
+		for k := 0; k < sp.Sends; k++ {
+			if err := st.SendMsg(payload); err != nil {
+				if err == io.EOF {
+					break // the status is delivered by RecvMsg
 				}
+				return err
 			}
-			st.CloseSend()
-		}()
+		}
+		st.CloseSend()
 		if sp.Header {
 			st.Header()
 		}
@@ -1078,6 +1099,13 @@ func run(sc scenario, res *caseResult) {
 	}
 	x.quiesce()
 	for k := 0; k < sc.NOps; k++ {
+		if x.running() == 0 && x.next < len(x.rpcs) {
+			x.tr("no RPC running: start rpc %d", x.next)
+			x.count("rpcs_replenished", 1)
+			x.startRPC(x.next)
+			x.next++
+			x.quiesce()
+		}
 		switch r := x.rng.Intn(100); {
 		case r < 6 && x.next < len(x.rpcs):
 			x.tr("start rpc %d", x.next)
@@ -1102,7 +1130,7 @@ func run(sc scenario, res *caseResult) {
 		}
 		x.quiesce()
 	}
-	for x.next < len(x.rpcs) {
+	for x.next < len(x.rpcs)-8 {
 		x.startRPC(x.next)
 		x.next++
 	}
@@ -1247,7 +1275,7 @@ func (x *execState) judgeFinal(report bool) int {
 
 func light() int {
 	if os.Getenv("VERIF_LIGHT") != "" {
-		return 8
+		return 10
 	}
 	return 1
 }
@@ -1276,9 +1304,9 @@ func TestVerifC11(t *testing.T) {
 		name string
 		n    int
 	}{
-		{"grammar", r.N(1200, 24000) / light()},
-		{"bytes", r.N(400, 8000) / light()},
-		{"handshake", r.N(160, 3200) / light()},
+		{"grammar", r.N(520, 10000) / light()},
+		{"bytes", r.N(180, 3600) / light()},
+		{"handshake", r.N(60, 1200) / light()},
 	}
 	var cases []caseID
 	for _, fm := range fams {
@@ -1288,7 +1316,7 @@ func TestVerifC11(t *testing.T) {
 			}
 		}
 	}
-	out := runIsolated(isoConfig{workerTest: "TestWorkerC11", chunk: 25, watchdog: 20 * time.Minute}, cases)
+	out := runIsolated(isoConfig{workerTest: "TestWorkerC11", chunk: 25, watchdog: 6 * time.Minute}, cases)
 	report(r, cases, out, func(c caseID) any { return gen(r.Rand(c.Fam, c.I), c.Fam, c.I) })
 	r.Finish(vlib.Spec{
 		Level: "fault_enumeration",
@@ -1359,4 +1387,5 @@ func report(r *vlib.Run, cases []caseID, out *isoOutcome, scenarioOf func(caseID
 		}
 	}
 	r.Count("cases_without_result", int64(missing))
+	r.Count("cases_skipped_after_crash_storm", int64(out.skipped))
 }
